@@ -44,7 +44,11 @@ func (t *sessTrack) step(e Ev) {
 		p := e.SN
 		switch p.Type {
 		case refsn.CONNECT:
-			t.cid = p.ClientID
+			// a CONNECT the gateway refuses outright (zero keep-alive, unknown protocol id) does not
+			// associate the session with a client id
+			if p.Duration != 0 && p.ProtocolID == 1 {
+				t.cid = p.ClientID
+			}
 		case refsn.REGISTER:
 			t.pendReg[p.MsgID] = p.TopicName
 		case refsn.SUBSCRIBE:
